@@ -143,7 +143,7 @@ impl LangInterpreter for French {
                 to_block = Excludable::UN;
                 b.put(b"70")
             }
-            "huitante" | "huitantiène" => {
+            "huitante" | "huitantième" | "huitantiène" => {
                 to_block = Excludable::UN;
                 b.put(b"80")
             }
